@@ -249,13 +249,10 @@ impl<'a> SiteWalker<'a> {
                     "AssignmentExpression" if v["operator"] == json!("+=") => {
                         let refolded = v.get("$refolded").is_some();
                         let tag = if refolded { "+" } else { "+=" };
-                        let simple = matches!(ty(&v["left"]), "Identifier" | "MemberExpression");
+                        let simple = matches!(ty(&v["left"]), "Identifier" | "MemberExpression" | "SuperPropExpression");
                         match &self.cfg.plus {
                             Some(dst) => {
                                 let mut base = if simple { Expect::Must } else { Expect::Free };
-                                if matches!(ty(&v["left"]), "MemberExpression") && ty(&v["left"]["object"]) == "SuperPropExpression" {
-                                    base = Expect::Free;
-                                }
                                 if refolded && is_literal(&v["right"]) && is_literal(&v["left"]) {
                                     base = Expect::Free;
                                 }
